@@ -305,6 +305,24 @@ def run(R, tier, seed, driver_ok):
             if name.startswith('SDML') and isinstance(e, RuntimeError):
                 continue
             R.violation(f'{name}/preprocessor-history-raises-{type(e).__name__}', f'{name}: {type(e).__name__}: {str(e)[:160]} after {hist}', {'est': name, 'history': hist})
+    # ---- a wide, tall data set: the helpers that switch to randomised algorithms on large inputs (scikit-learn's PCA
+    #      behind init='pca' / 'auto') must still be driven by the estimator's integer seed
+    from metric_learn import NCA, MLKR
+    nL, dL = 520, 60
+    XL = rng.randn(nL, dL) * (1 + rng.rand(dL)); yL = rng.randint(0, 2, size=nL)
+    for cls, yy_ in ((NCA, yL), (MLKR, yL.astype(float) + 0.1 * rng.randn(nL))):
+        for init in ('pca', 'auto'):
+            sd = int(rng.randint(1 << 30))
+            case = {'est': cls.__name__, 'init': init, 'n_components': 3, 'shape': [nL, dL], 'seed': sd}
+            R.case(('c17-large', cls.__name__, init), True, sample=case, branch='large-data-determinism')
+            with warnings.catch_warnings():
+                warnings.simplefilter('ignore')
+                e1 = cls(n_components=3, init=init, max_iter=1, random_state=sd).fit(XL, yy_)
+                np.random.seed(int(rng.randint(1 << 30)))          # whatever the global generator holds must not matter
+                e2 = clone(e1).fit(XL, yy_)
+            a, b = e1.components_, e2.components_
+            if a.shape != b.shape or np.abs(a - b).max() > 1e-9 * max(np.abs(a).max(), 1e-300):
+                R.violation(f'{cls.__name__}/large-data/not-deterministic', f'{cls.__name__}(init={init!r}, n_components=3, random_state={sd}) on a {nL}×{dL} data set: a clone fitted on the same data differs (relative {np.abs(a - b).max() / max(np.abs(a).max(), 1e-300):.3g})', case)
     R.extra['traces_validated_against_impl'] = R.evaluations
 
 
